@@ -2136,7 +2136,7 @@ impl ty::TyExpression {
                     .with_help_text("")
                     .with_type_annotation(type_engine.insert(engines, initial_type.clone(), None));
 
-                // type_check_analyze unification will give the final error
+                // The unification of the elements below will give the final error
                 let type_check_handler = Handler::default();
                 let result = Self::type_check(&type_check_handler, ctx, expr)
                     .unwrap_or_else(|err| ty::TyExpression::error(err, span.clone(), engines));
@@ -2145,7 +2145,7 @@ impl ty::TyExpression {
                     handler.append(type_check_handler);
                 } else {
                     // Only the mismatch between the element itself and the expected element
-                    // type is reported later, by the unification in type_check_analyze.
+                    // type is reported later, by the unification of the elements below.
                     // Every other error found inside of the element (e.g., in the condition
                     // of an `if` element) must not get lost.
                     let (errors, _warnings, _infos) = type_check_handler.consume();
@@ -2192,9 +2192,10 @@ impl ty::TyExpression {
             span,
         };
 
-        // type_check_analyze unification will give the final error
-        let handler = Handler::default();
-        expr.as_array_unify_elements(&handler, ctx.engines);
+        // The elements that do not have the element type are reported here, and not by
+        // type_check_analyze, which does not visit every expression (e.g., not the fields
+        // of struct instantiations and the arguments of function applications).
+        expr.as_array_unify_elements(handler, ctx.engines);
 
         Ok(expr)
     }
